@@ -39,6 +39,12 @@ def gen_cases(tier, seed):
     ce = [("s", "a", 3.0), ("a", "t", 3.0), ("s", "c", 0.5), ("c", "d", 0.5), ("d", "c", 0.5), ("d", "t", 0.5)]
     cases.append({"cyc": True, "mode": "edge", "wt": "float", "k": 1, "ignore": [], "scale": [], "starts": [], "ends": [], "superset": None, "planted": [],
                   "spec": gen.spec(["s", "a", "t", "c", "d"], [(u, v) for u, v, _ in ce], eattr={(u, v): {"flow": f} for u, v, f in ce})})
+    # corpus: integer weights asked for fractional data (weights are only required to be non-negative)
+    for fl in ([0.5, 0.75], [7.9, 7.9], [2.5, 0.25, 2.5]):
+        nodes = [str(i) for i in range(len(fl) + 1)]; edges = list(zip(nodes, nodes[1:]))
+        for cyc_ in (False, True):
+            cases.append({"cyc": cyc_, "mode": "edge", "wt": "int", "k": 1, "ignore": [], "scale": [], "starts": [], "ends": [], "superset": None, "planted": [],
+                          "spec": gen.spec(nodes, edges, eattr={e: {"flow": f} for e, f in zip(edges, fl)})})
     n = 300 if tier == "quick" else 3500
     for i in range(n):
         rng = gen.rng_for("C07", seed, i)
@@ -277,6 +283,13 @@ def run_case(case):
         except ref.RefTimeout:
             obs["c07.ref_timeout"] += 1
     side += [s for s, _ in M.ROUTES.drain()]
+    if wt == "int" and any(float(v) != int(v) for v in demand.values()):
+        # integer weights on fractional data: the error variables of the integer models are integers (errors rounded up), so the reported
+        # errors / objective differ from the recomputed ones; every disagreement on this input class is keyed by the class (known finding)
+        obs["c07.int_type_fractional_data"] += 1
+        for v in viol:
+            if "/unsolved" not in v["sig"] and "-raises/" not in v["sig"]:      # (an unsolved model / an exception is not explained by integer error variables)
+                v["sig"] = "C07/int-weight-type-with-fractional-flows/" + v["sig"][4:]
     seen = set(); out = []
     for v in viol:
         if v["sig"] not in seen:
